@@ -14,7 +14,7 @@ for m in sorted(glob.glob(os.path.join(V, "seeded", "*", "meta.json"))):
     caught = d["quick_check_exit"] == 1
     after = d.get("quick_check_exit_after_strengthening")
     verdict = "caught" if caught else ("missed, then caught after strengthening" if after == 1 else "MISSED")
-    if not caught and after != 1 and d.get("caught_by_other_check"):
+    if not caught and d.get("caught_by_other_check"):
         verdict = f"not by this check; caught by the {d['caught_by_other_check']} check (the change breaks that property's subject)"
     if not caught and after != 1 and d.get("still_breaks_on_current_tree") is False:
         verdict = "missed, then caught after strengthening; neutralised on the current tree by a later fix (see meta.json)"
